@@ -78,11 +78,12 @@ def get_from_tfrecord(
             "int64": tf.int64,
             "float16": tf.string,
             "float32": tf.float32,
-            "float64": tf.float64,
+            # FloatList only holds float32 so float64 is a serialized tensor.
+            "float64": tf.string,
         }[attribute.dtype]
 
         shape: tuple[int, ...] = attribute.shape
-        if attribute.dtype == "float16":
+        if attribute.dtype in ["float16", "float64"]:
             # We parse from bytes so no shape
             shape = ()
 
@@ -93,9 +94,9 @@ def get_from_tfrecord(
     def from_tfrecord(tf_record: Any) -> Any:
         rec = tf.io.parse_single_example(tf_record, tf_features)
         for attribute in saved_data_description:
-            if attribute.dtype == "float16":
+            if attribute.dtype in ["float16", "float64"]:
                 rec[attribute.name] = tf.io.parse_tensor(
-                    rec[attribute.name], tf.float16)
+                    rec[attribute.name], tf.as_dtype(attribute.dtype))
                 rec[attribute.name] = tf.ensure_shape(rec[attribute.name],
                                                       shape=attribute.shape)
         return rec
@@ -146,11 +147,11 @@ def to_tfrecord(saved_data_description: list[Attribute],
         # Set feature value
         if attribute.dtype in ["int8", "uint8", "int32", "int64"]:
             feature[attribute.name] = int64_feature(values[attribute.name])
-        elif attribute.dtype == "float16":
-            value = value.astype(dtype=np.float16)
+        elif attribute.dtype in ["float16", "float64"]:
+            value = value.astype(dtype=attribute.dtype)
             feature[attribute.name] = bytes_feature(
                 [tf.io.serialize_tensor(value).numpy()])
-        elif attribute.dtype in ["float32", "float64"]:
+        elif attribute.dtype == "float32":
             feature[attribute.name] = float_feature(values[attribute.name])
         elif attribute.dtype == "str":
             feature[attribute.name] = bytes_feature(
